@@ -92,7 +92,14 @@ func (s *Session) Step(tr string, i int, c Call, names []string) Event {
 	cons := s.cons
 	leak := s.leak
 	s.quiet = true
-	snap := s.Project(names)
+
+	var snap Snapshot
+	if res.Err != "HANG" {
+		snap = s.Project(names)
+	} else {
+		snap = Snapshot{Post: []Entry{}, Hs: []HandleView{}, Cwd: Path{Parts: []string{}}, Srt: true}
+	}
+
 	s.quiet = false
 	ev := Event{Tr: tr, I: i, Fs: s.Target, Call: c, Res: res, Post: snap.Post, Hs: snap.Hs, Cwd: snap.Cwd, Srt: snap.Srt, Inv: "ok", Cons: cons, Leak: leak, Um: s.baseUmask()}
 
@@ -567,7 +574,7 @@ func ReplayEdges(f *Factory, in io.ReadSeeker, out io.Writer, shard, nshard int,
 // Windows error value", modes and owners are not compared (documented as OS specific).
 func winRes(r Res) Res {
 	switch r.Err {
-	case "ok", "EOF", "CLOSED", "NOHANDLE", "NEGOFF", "EAPPENDAT", "EINVALH", "PANIC", "DEADLOCK", "EINJECTED", "LINUX-ELOOP":
+	case "ok", "EOF", "CLOSED", "NOHANDLE", "NEGOFF", "EAPPENDAT", "EINVALH", "PANIC", "DEADLOCK", "HANG", "EINJECTED", "LINUX-ELOOP":
 	default:
 		r.Err = "WIN"
 	}
